@@ -426,7 +426,106 @@ func c03Oracle(p c03Params) func(tr *mc.Trace) []h.Violation {
 	}
 }
 
+// c03AcrossReconnect: a Send is unacknowledged when the gateway ends the connection and the client
+// reconnects; an acknowledgement for (new channel, 0) arrives while that Send still waits. The Send
+// must not succeed through it (it carries neither its request's channel nor its number), and the
+// first request after the reconnect starts at 0 on the new channel.
+func c03AcrossReconnect() func() {
+	return func() {
+		sock := fakesock.New("udp")
+		gw := NewGateway(sock, c03Channel)
+		acked := map[int]bool{}
+		gw.OnTunnelReq = func(req *knxnet.TunnelReq, s *fakesock.Sent) {
+			id := MsgID(req.Payload)
+			if id == 1 {
+				return // the second telegram is never acknowledged
+			}
+			if !acked[id] {
+				acked[id] = true
+				c03Deliver(sock, req.Channel, req.SeqNumber, 0)
+			}
+		}
+		t, err := knx.NewTunnelOnSocket(sock, knxnet.TunnelLayerData, TCfg(100, 350, 100000000))
+		if err != nil {
+			return
+		}
+		gw.NextChannel = c03Channel + 1
+		send := func(id int) {
+			t0 := mc.Now()
+			err := t.Send(Msg(id))
+			mc.Log(Ret{"Send", id, errStr(err), t0})
+		}
+		send(0)
+		mc.GoEnv("gateway-events", func() {
+			mc.Sleep(mc.Duration(30+40*mc.Choose(3, mc.Free)) * ms)
+			mc.Log(Note("disconnect request"))
+			sock.Deliver(&knxnet.DiscReq{Channel: c03Channel})
+			mc.Sleep(mc.Duration(10+50*mc.Choose(2, mc.Free)) * ms)
+			stray := mc.Choose(3, mc.Free) // acknowledgement (new channel, 0): none / OK / error status
+			if stray > 0 {
+				st := uint8(0)
+				if stray == 2 {
+					st = 0x29
+				}
+				c03Deliver(sock, c03Channel+1, 0, st)
+			}
+		})
+		mc.Sleep(1 * ms)
+		send(1) // pending across the reconnect
+		mc.Sleep(500 * ms)
+		send(2)
+		send(3)
+		mc.Sleep(500 * ms)
+		t.Close()
+	}
+}
+
+func c03AcrossReconnectOracle(tr *mc.Trace) []h.Violation {
+	vs := generic(tr, "C03", true)
+	bad := func(class, format string, a ...interface{}) {
+		vs = append(vs, h.Violation{Class: "C03:" + class, Msg: fmt.Sprintf(format, a...)})
+	}
+	reconnected := mc.Duration(-1)
+	var afterSeqs []uint8
+	seen := map[int]bool{}
+	for _, e := range tr.Log {
+		switch x := e.V.(type) {
+		case fakesock.Sent:
+			switch y := x.Svc.(type) {
+			case *knxnet.ConnReq:
+				if e.T > 0 {
+					reconnected = e.T
+				}
+			case *knxnet.TunnelReq:
+				id := MsgID(y.Payload)
+				if id >= 2 && !seen[id] {
+					seen[id] = true
+					if y.Channel != c03Channel+1 {
+						bad("stale-channel-after-reconnect", "request id=%d sent at %v carries channel %d; the reconnect assigned %d", id, e.T, y.Channel, c03Channel+1)
+					}
+					afterSeqs = append(afterSeqs, y.SeqNumber)
+				}
+			}
+		case Ret:
+			if x.Call == "Send" && x.ID == 1 && x.Err == "" {
+				bad("success-without-ack:across-reconnect", "Send of telegram 1 (request channel %d, sequence number 1) reported success although no acknowledgement for that channel and number was ever delivered; the only acknowledgement around was for the new connection (channel %d, number 0)", c03Channel, c03Channel+1)
+			}
+			if x.Call == "Send" && x.ID >= 2 && x.Err != "" {
+				bad("send-fails-after-reconnect", "Send of telegram %d after the reconnect failed: %s", x.ID, x.Err)
+			}
+		}
+	}
+	if tr.Reason != "main-returned" || reconnected < 0 {
+		return vs
+	}
+	if fmt.Sprint(afterSeqs) != fmt.Sprint([]uint8{0, 1}) {
+		bad("sequence-not-restarted", "the requests sent after the reconnect carry the sequence numbers %v; numbering must restart at 0 and continue consecutively", afterSeqs)
+	}
+	return vs
+}
+
 func init() {
+	register("both", &h.Scenario{Name: "C03-S6-send-pending-across-reconnect", Prop: "C03", P: 2, F: 0, D: 2, Run: c03AcrossReconnect(), Check: c03AcrossReconnectOracle})
 	s1 := c03Params{R: 100, T: 350, senders: 1, perSender: 2, menu: true, pauses: true}
 	register("both", &h.Scenario{Name: "C03-S1-menu-2sends-F2", Prop: "C03", P: 1, F: 2, D: 1, Run: c03Run(s1), Check: c03Oracle(s1)})
 	s1b := c03Params{R: 100, T: 100, senders: 1, perSender: 2, menu: true, pauses: true}
